@@ -12,6 +12,8 @@ RULE = ("one fixed boundary case (equal values, one step either side of a limit,
         "of length <= 6 (12) over few distinct requests with adjacent duplicates; every op calls the real function of barter::risk in-process. "
         "Plus a separately seeded input-domain family (one `d` case per eight random ones; fixed instances in corpus/C03R/domain.ops): chk int / appr / refuse / refuses at the i64 limits, chk dec at "
         "the ends of the Decimal range (2^96-1, 1e-28, either sign, -0), rm with opens whose prices / quantities are SIGNED (negative, 0, 1e-28, +-(2^96-1)), indices / ids of 1e6 and the u64 state at its limits. "
+        "Plus a separately seeded configuration-shape family (one `cfg` case per sixteen random ones; corpus/C03R/cfg_kinds.ops): notionalk over option PUTS, American / Bermudan exercise, settlement asset 7, expiry at the epoch, "
+        "strike 0 (`notionalk` otherwise always builds a European call settled in asset 0): the contract size read by the notional must not depend on any of them. "
         "thorough additionally enumerates chk dec / apd over a 7x7 grid, chk f64 over 8x8 (with NaN, +-inf, -0.0), chk int over 7x7, notional and delta over "
         "the full 7^3 grid (incl. 2^95 and 2^96-1 meeting 0.5) and DefaultRiskManager::check over every pair of request lists of length <= 2. A case is distinct by "
         "the SHA-1 of its op lines and non-trivial when two of its ops produce different observations. The oracle (spec mode) speaks on notional / "
